@@ -13,7 +13,7 @@
    (theorem C08_open_findings_are_refutations shows every listed deviation is real, so nothing is excluded that holds
    by accident of the list).  Part 2 is over the assignment model (Assign.v), for all states and programs. *)
 From Coq Require Import List String Bool Arith ZArith.
-From Miller Require Import C08.Model C08.Proofs C08.TableProofs gen.Gen_Dispositions C08.Assign C08.AssignProofs C08.Accumulate C08.Harness.
+From Miller Require Import C08.Model C08.Proofs C08.TableProofs C08.DslRules gen.Gen_Dispositions gen.Gen_AbsentDSL C08.Assign C08.AssignProofs C08.Accumulate C08.Harness.
 Import ListNotations.
 Local Open Scope string_scope.
 
@@ -163,6 +163,50 @@ Theorem C08_open_findings_are_refutations :
   forall f, In f open_findings -> refuted gen_binary f = true.
 Proof. exact (lift1 _ _ t_open_refuted). Qed.
 Print Assumptions C08_open_findings_are_refutations.
+
+(* ================= Part 1c: absent through the DSL evaluator (tables regenerated from `mlr -n put`: gen/Gen_AbsentDSL.v) ================= *)
+
+(* a ?? b is b exactly when a is absent, a ??? b exactly when a is absent or empty -- for every kind of a a DSL expression can
+   denote (11) and right-hand sides of 4 kinds; co_expected is that rule, lookup_co reads the regenerated table *)
+Theorem C08_coalescing_operators_over_all_kinds :
+  forall op a b, In op coalesce_ops -> In a dsl_kinds -> In b rhs_kinds ->
+    exists c, lookup_co gen_coalesce op a b = Some c /\ cls_eqb c (co_expected op a) = true.
+Proof.
+  exact (fun op a b Ho Ha Hb =>
+    match lookup_co gen_coalesce op a b as o
+      return (match o with Some c => cls_eqb c (co_expected op a) | None => false end = true -> exists c, o = Some c /\ cls_eqb c (co_expected op a) = true) with
+    | Some c => fun H => ex_intro _ c (conj eq_refl H)
+    | None => fun H => match Bool.diff_false_true H with end
+    end (lift3 _ _ _ _ t_coalesce op a b Ho Ha Hb)).
+Qed.
+Print Assumptions C08_coalescing_operators_over_all_kinds.
+
+(* "absent in, absent out" for the listed string / math / formatting functions (first argument absent) *)
+Theorem C08_functions_of_absent_are_absent :
+  (forall f, In f absent_out_1 -> fn_is_absent gen_fn1_absent f = true) /\ (forall f, In f absent_out_n -> fn_is_absent gen_fnn_absent f = true).
+Proof. exact (conj (lift1 _ _ t_fn1_absent) (lift1 _ _ t_fnn_absent)). Qed.
+Print Assumptions C08_functions_of_absent_are_absent.
+
+(* EVERY one-argument function of the built-in function table applied to absent gives absent or an error value, except the
+   is_* predicates (a boolean) and the listed functions fn1_other; none stops the process *)
+Theorem C08_one_argument_functions_of_absent_classified :
+  forall e, In e gen_fn1_absent -> r_fn1_class e = true.
+Proof. exact (lift1 _ _ t_fn1_class). Qed.
+Print Assumptions C08_one_argument_functions_of_absent_classified.
+
+(* asserting_p(v) returns exactly when is_p(v) is true; every predicate is observed on an absent argument *)
+Theorem C08_asserting_agrees_with_is_predicates :
+  (forall e, In e gen_asserting -> r_asserting e = true) /\ (forall p, In p asserting_preds -> asserting_covers_absent p = true).
+Proof. exact (conj (lift1 _ _ t_asserting) (lift1 _ _ t_asserting_cover)). Qed.
+Print Assumptions C08_asserting_agrees_with_is_predicates.
+
+(* absent in statements: print/dump/emit print "" or nothing, unset of absent things and absent map keys/values change nothing,
+   typed locals stay unset (the skip rule precedes the type gate) while typed parameters/returns reject absent, positional names,
+   $* and ENV are not assigned, absent as a condition is an error (if / ?:) and drops the record (filter) *)
+Theorem C08_absent_in_statements :
+  forall e, In e expected_stmt -> r_stmt e = true.
+Proof. exact (lift1 _ _ t_stmt). Qed.
+Print Assumptions C08_absent_in_statements.
 
 (* ================= Part 2: assignment (model of AssignmentNode.Execute + every lvalue node), all states ================= *)
 
